@@ -13,8 +13,8 @@ MANIFEST = {
                   "D inverts E on 16-byte blocks; RemoveEncryptionBoxes (repaired text) keeps exactly the non-protection boxes in "
                   "order and counts exactly the removed bytes; for every single-traf fragment with arbitrary opaque boxes, encrypt -> "
                   "encode/decode -> decrypt restores the clear children, data offset and mdat position. Explored, not proved: that the "
-                  "Go code behaves like the model (correspondence), senc/saiz/saio and sample-entry (de)serialisation, DecryptInit "
-                  "(round trips through real files, byte comparison with the clear file).",
+                  "Go code behaves like the model (correspondence), senc/saiz/saio and sample-entry (de)serialisation "
+                  "(round trips through real files, byte comparison with the clear file). DecryptInit(InitProtect init) = init is a theorem on the abstract init.",
     "level_note": "Trusted: Coq kernel, extraction, OCaml/Go glue. Modelled, not verified: crypto/aes, cipher CTR/CBC, box "
                   "(de)serialisation (boxes are opaque kind/size/identity triples), GetFullSamples. The fragment theorem is about "
                   "structure; sample bytes are covered by the two crypt theorems plus the IV observations of the correspondence.",
@@ -62,7 +62,7 @@ def run(ctx):
     ctx.cov["distinct_nontrivial"] += distinct
     ctx.notes["correspondence"] = {
         "cases": len(lines), "mismatches": len(mism), "distinct_cases": distinct, "kinds": kinds, "outcome_classes": classes,
-        "distribution": "D decryptSamplesInPlace (hook) on senc contents of every shape: 8/16-byte per-sample IVs incl. ff-carries, "
+        "distribution": "P InitProtect+DecryptInit on the AVC/HEVC/AAC test inits with retyped entries (avc3, hev1, vp09, av01, ac-3, encv), extra entry children, an own sinf, pre-existing pssh, a second trak, unknown entry, bad scheme, 8/16-byte IVs, 0-2 pssh; D decryptSamplesInPlace (hook) on senc contents of every shape: 8/16-byte per-sample IVs incl. ff-carries, "
                         "constant IV, IV count != sample count, missing/short sub-sample lists, maps beyond the sample, bad keys, "
                         "schemes cenc/cbcs/other, patterns 1:9 and 0:0; S RemoveEncryptionBoxes on trafs mixing saiz/saio/senc/tfxd/tfrf/"
                         "unknown/free/trun/tfdt; G DecryptFragment after EncryptFragment+encode+decode (AVC/HEVC/audio, both schemes, "
